@@ -124,7 +124,15 @@ theorem table_kinds :
        ("token.impersonate", some [.int32, .int32]), ("token.remove", some [.int32, .int32]),
        ("pivot.connect", some [.int32, .bytes]), ("pivot.disconnect", some [.int32, .int32]),
        ("transfer.list", some [.int32]), ("transfer.stop", some [.int32, .int32]), ("transfer.resume", some [.int32, .int32]), ("transfer.remove", some [.int32, .int32]),
-       ("exit.thread", some [.int32]), ("exit.process", some [.int32]), ("proclist", some [.int32])] := by decide
+       ("exit.thread", some [.int32]), ("exit.process", some [.int32]), ("proclist", some [.int32]),
+       ("config.verbose", some [.int32, .int32]), ("config.coffee.veh", some [.int32, .int32]), ("config.coffee.threaded", some [.int32, .int32]),
+       ("config.sleep-technique", some [.int32, .int32]), ("config.memory.alloc", some [.int32, .int32]), ("config.memory.execute", some [.int32, .int32]),
+       ("config.inject.technique", some [.int32, .int32]), ("config.spawn64", some [.int32, .bytes]), ("config.spawn32", some [.int32, .bytes]),
+       ("config.killdate", some [.int32, .int64]), ("config.workinghours", some [.int32, .int32])] := by decide
+
+/-- the working hours word a `config workinghours` task must carry: every field in its own bits (the end minute needs six) -/
+example : (find "config.workinghours").bind (fun e => e.expect [[57, 58, 51, 48, 45, 49, 55, 58, 52, 53]]) =   -- "9:30-17:45"
+    some [.int32 (4194304 + 9 * 131072 + 30 * 2048 + 17 * 64 + 45)] := by decide
 
 
 /- the wide string the Demon must receive for a parameter outside the BMP: surrogate pairs, NUL terminator -/
